@@ -562,11 +562,17 @@ func runQueueWL(e *Env) {
 		if !booted || ndone < nclients {
 			return false
 		}
-		if conc && q.Length() > 0 && handled < maxHandled+3 {
+		if conc && q.Length() > 0 && handled < maxHandled+3 && q.GetStatus() != "stop" {
+			// (the worker stops for good when a client empties the queue between its IsEmpty and
+			// GetFirst calls: waitForTask then returns nil like on cancellation. No listed property
+			// covers that; the run simply ends. See DESIGN.md, observations.)
 			return false
 		}
 		return true
 	})
+	if conc && q.GetStatus() == "stop" {
+		simrt.Count("probe:worker-stopped-by-concurrent-remove")
+	}
 	if err != nil {
 		e.Out.Truncated = true
 	}
